@@ -862,7 +862,7 @@ def main_env(case, root):
     coords = P("sys.gro")
     argv = ["gaddlemaps", coords]
     for s in case["explicit"]:
-        argv += ["--mol", P(fname(s, "top_CG")), P(fname(s, "coor_AA")), P(fname(s, "top_AA"))]
+        argv += ["--mol", P(fname(s, "top_CG")), P(fname(s, "coor_AA")), P(renamed_end_top(s) if case.get("renamed_end") else fname(s, "top_AA"))]
     if case["scale"] is not None:
         argv += ["--scale", repr(case["scale"])]
     if case["outfile"] == "abs":
@@ -916,7 +916,13 @@ def main_inputs():
     for s_ in MAIN_ALL:
         for r in ROLES:
             texts[copy_name(fname(s_, r))] = texts[fname(s_, r)]
+        # the same end topology under another [ moleculetype ] name: explicit triples do not require equal names in both resolutions
+        texts[renamed_end_top(s_)] = texts[fname(s_, "top_AA")].replace("%s 1" % SPECIES[s_][0], "%s_AA 1" % SPECIES[s_][0], 1)
     return texts
+
+
+def renamed_end_top(letter):
+    return f"{letter}_aa_other_name.itp"
 
 
 def prepare_main_root(root):
@@ -1250,6 +1256,9 @@ def e2e_cases():
         # the scale is always GIVEN here (the statement does not fix the default)
         for scale, outfile, style in ((0.7, None, "rel-sub"), (0.3, "abs", "abs")):
             cases.append({"explicit": explicit, "auto": False, "exclude": None, "scale": scale, "outfile": outfile, "style": style})
+    # end topologies whose [ moleculetype ] name differs from the start topology's (allowed for explicit triples)
+    cases.append({"explicit": ["A"], "auto": False, "exclude": None, "scale": 0.7, "outfile": None, "style": "rel-sub", "renamed_end": True})
+    cases.append({"explicit": ["B", "A"], "auto": False, "exclude": None, "scale": 0.3, "outfile": "abs", "style": "abs", "renamed_end": True})
     return cases
 
 
@@ -1292,8 +1301,13 @@ def run_e2e(case, root, npseed):
             np.random.seed(npseed)
             random.seed(npseed)
             man = gaddlemaps.Manager.from_files(os.path.join(work, "sys.gro"), *[os.path.join(work, fname(s, "top_CG")) for s in order])
-            man.add_end_molecules(*[Molecule.from_files(os.path.join(work, fname(s, "coor_AA")), os.path.join(work, fname(s, "top_AA")))
-                                    for s in order])
+            if case.get("renamed_end"):
+                for s in order:         # the end topology carries another molecule name: attach it to its species explicitly
+                    man.molecule_correspondence[SPECIES[s][0]].end = Molecule.from_files(os.path.join(work, fname(s, "coor_AA")),
+                                                                                         os.path.join(work, renamed_end_top(s)))
+            else:
+                man.add_end_molecules(*[Molecule.from_files(os.path.join(work, fname(s, "coor_AA")), os.path.join(work, fname(s, "top_AA")))
+                                        for s in order])
             man.align_molecules()
             man.calculate_exchange_maps(scale_factor=exp["scale"])
             man.extrapolate_system(lib_out)
